@@ -1,6 +1,7 @@
 (* C04 -- Index-derived region partitions cover every record exactly once. *)
 From Coq Require Import ZArith Arith List Bool Sorting.Sorted.
 From B2Z Require Import Model.Regions Proofs.RegionsProofs Proofs.RegionsRefine.
+From B2Z Require Import Base.NpPrims Gen.GenRegions Bridge.BridgeRegions.
 Import ListNotations.
 Open Scope Z_scope.
 
@@ -48,6 +49,50 @@ Theorem partition_correct : forall ncontigs count_pos file c0 s0 cuts,
   check_C04 ncontigs file rs = true.
 Proof. exact partition_correct. Qed.
 Print Assumptions partition_correct.
+
+(* ---- TRANSLATOR TIE: the region-building part of IndexedVcf.partition_into_regions as regenerated from
+   the source on this run (translator/regions2coq.py -> Gen/GenRegions.v): the index-based loop over
+   region_contigs / region_starts (`i == len - 1`, the `i + 1` look-ahead, `next_contig == contig`), the
+   skipped-contig loop, the `end >= 1` test and the trailing-contig loop.  For EVERY non-empty cut list,
+   every number of contigs and every record-count table it appends exactly the regions of the model
+   (sequence names carried as their indexes; names are distinct). *)
+Theorem translated_regions_are_the_model : forall ncontigs counts cuts, cuts <> [] ->
+  gen_regions (Z.of_nat ncontigs) counts (rcs cuts) (rss cuts)
+  = map conv (regions ncontigs (fun c => counts (Z.of_nat c) >? 0) cuts).
+Proof. exact translated_regions_are_the_model_lemma. Qed.
+Print Assumptions translated_regions_are_the_model.
+
+(* hence the whole statement for the translated source: refining the regions the translated loop appends
+   (read back through conv, which is injective) yields every record once, no empty region, ordered and
+   disjoint, check_C04 = true *)
+Theorem translated_partition_correct : forall ncontigs counts file c0 s0 cuts rs0,
+  file_ok file -> cuts_inc ((c0, s0) :: cuts) ->
+  (last_contig ((c0, s0) :: cuts) < ncontigs)%nat ->
+  (forall x, In x file -> (fst x < ncontigs)%nat) ->
+  (forall x, In x file -> (c0 <= fst x)%nat /\ (fst x = c0 -> s0 <= snd x)) ->
+  (forall x, In x file -> (last_contig ((c0, s0) :: cuts) < fst x)%nat -> counts (Z.of_nat (fst x)) >? 0 = true) ->
+  map conv rs0 = gen_regions (Z.of_nat ncontigs) counts (rcs ((c0, s0) :: cuts)) (rss ((c0, s0) :: cuts)) ->
+  let rs := refine file rs0 in
+  flat_map (query file) rs = flat_map (fun c => of_contig c file) (seq 0 ncontigs) /\
+  (forall r, In r rs -> query file r <> []) /\
+  check_C04 ncontigs file rs = true.
+Proof.
+  intros ncontigs counts file c0 s0 cuts rs0 H1 H2 H3 H4 H5 H6 E.
+  rewrite translated_regions_are_the_model_lemma in E by discriminate.
+  assert (Inj : forall a b, map conv a = map conv b -> a = b).
+  { induction a as [|x a IH]; intros [|y b] Hab; try discriminate; [reflexivity|].
+    destruct x as [xc xs xe], y as [yc ys ye]. cbn [map] in Hab. unfold conv at 1 3 in Hab. cbn [rc rs re] in Hab.
+    inversion Hab as [[A B C D]]. apply Nat2Z.inj in A. subst. f_equal. apply IH. exact D. }
+  apply Inj in E. subst rs0.
+  destruct (partition_correct ncontigs (fun c => counts (Z.of_nat c) >? 0) file c0 s0 cuts H1 H2 H3 H4 H5 H6) as [A [B [_ D]]].
+  cbv zeta. split; [exact A|]. split; [exact B|exact D].
+Qed.
+Print Assumptions translated_partition_correct.
+
+Example translated_regions_instance :
+  gen_regions 5 (fun c => if c =? 4 then 7 else 0) (rcs [(0%nat, 1); (0%nat, 200); (2%nat, 50)]) (rss [(0%nat, 1); (0%nat, 200); (2%nat, 50)])
+  = [GR 0 (Some 1) (Some 199); GR 0 (Some 200) None; GR 1 None None; GR 2 (Some 1) (Some 49); GR 2 (Some 50) None; GR 4 None None].
+Proof. vm_compute. reflexivity. Qed.
 
 (* CSI: with the (fixed) lexicographic sort of (loffset, first locus) and htslib's monotone
    loffsets, the emitted positions of a contig are non-decreasing ... *)
